@@ -132,6 +132,12 @@ func measObs(c *xsens.Client) string {
 	if md == nil || reflect.ValueOf(md).IsNil() {
 		return "(BSlot None true)"
 	}
+	// the documented loop prints the value (README, cmd/xsens): a value whose formatting panics counts as a panic of the
+	// read (fmt reports a panicking String method inside the text; a crash that cannot be recovered ends the harness)
+	var text string
+	if p, _ := protect(func() { text = fmt.Sprintf("%+v", md) }); p || strings.Contains(text, "(PANIC=") {
+		return "BPanic"
+	}
 	name := "unexported-" + reflect.TypeOf(md).Elem().Name()
 	for _, g := range slotGetters {
 		if reflect.ValueOf(g.get(c)).Pointer() == reflect.ValueOf(md).Pointer() {
